@@ -84,6 +84,32 @@ func c05Case(r *mon.Run, rng *rand.Rand, s *rfix.Star, idx int) {
 				sc.LocalHops = sc.LocalHops[1:]
 			}
 			sc.In = rfix.Ingress{IfID: 0, Src: &net.UDPAddr{IP: net.IPv4(10, 0, 9, byte(1+rng.IntN(200))), Port: 30000 + rng.IntN(100)}}
+			if rng.IntN(3) == 0 {
+				// the hop field (authentic: issued under the AS key, e.g. before a
+				// topology change) names an ingress interface that no router of the
+				// AS has: there is no sibling link over which it may arrive
+				g := sc.Spec.Cur
+				si, _ := sc.Spec.Locate(g)
+				u := sc.Spec.Segs[si]
+				hop := sc.Spec.HopAt(g)
+				unk := uint16(1 + rng.IntN(65535))
+				for known := true; known; {
+					known = false
+					for _, f := range s.Cfg.Ifs {
+						if f.ID == unk {
+							known = true
+							unk = uint16(1 + rng.IntN(65535))
+						}
+					}
+				}
+				if u.ConsDir {
+					hop.ConsIn = unk
+				} else {
+					hop.ConsEg = unk
+				}
+				u.Seg.Seal(rng)
+				arrival = "host-spoof-unknown-ingress"
+			}
 		}
 	case 1: // over the link of a sibling that does not own the ingress interface
 		if arrival == "sibling-right" {
@@ -125,7 +151,7 @@ func c05Case(r *mon.Run, rng *rand.Rand, s *rfix.Star, idx int) {
 		} else {
 			want = "reject"
 		}
-	case "host-spoof", "sibling-wrong":
+	case "host-spoof", "host-spoof-unknown-ingress", "sibling-wrong":
 		want = "reject"
 		if firstHop {
 			want = "" // cannot happen (these are derived from non-first-hop scenarios)
